@@ -495,3 +495,38 @@ PLANS["C17"] = {
     ],
 }
 CHECKS["C17"] = _core
+
+
+# -------------------------------------------------------------------------------------------------------- C18 argv
+ARGV_CLASSES = ["w", "gnv", "gv", "gveq", "help", "version", "mpath", "eoo", "unk", "gonly", "aonly", "aonlyv", "astick"]
+
+
+def argv_consts(maxlen, classes=ARGV_CLASSES):
+    return {"Classes": list(classes), "MaxLen": maxlen, "AliasKinds": sorted(_fn.ALIASES), "Mode": "gen"}
+
+
+PLANS["C18"] = {
+    "clauses": ["C18_SameArgs", "C18_CommandNotValue", "C18_AliasAgrees"],
+    "module": "Argv.tla", "const_keys": ["Classes", "MaxLen", "AliasKinds", "Mode"],
+    "executor": _fn.execute_argv, "tagger": _fn.argv_tags, "end_event": {"ev": "reset", "run": "end"},
+    "prebuild": _fn.build_gaifn, "chunk": 4000,
+    "expect_actions": {"any": ["Vec", "Alias"]},
+    "rule": "every vector of lexical token classes up to the length bound (and every alias family) TLC enumerates is "
+            "turned into real tokens (seeded choice per class) and driven through parse_git_cli_args / "
+            "to_invocation_vec in-process; vectors with a top-level --help/--version are run through the real git "
+            "both ways; a sample and all alias cases go through the wrapper with a recording stand-in git",
+    "assumptions": [
+        "TLC 1.8 and the CommunityModules evaluate spec/Argv.tla correctly",
+        "GitScan transcribes git 2.39's handle_options (the git installed here)",
+        "the lexical classes cover the distinctions either scanner makes between tokens",
+    ],
+    "quick": [
+        dict(name="vectors", consts=argv_consts(3), invariants=["G_CommandNotValue", "G_AliasAgrees"], budget=100000,
+             variants=[("-", "-")], per_tag=1, extra={"e2e_every": 12}),
+    ],
+    "thorough": [
+        dict(name="vectors", consts=argv_consts(4), invariants=["G_CommandNotValue", "G_AliasAgrees"], budget=400000,
+             variants=[("-", "-")], per_tag=1, extra={"e2e_every": 40}, timeout=3000),
+    ],
+}
+CHECKS["C18"] = _core
